@@ -1,5 +1,6 @@
 import AnnVerif.Model.DriverUtil
 import AnnVerif.Model.Trie
+import AnnVerif.Model.TrieProof
 import AnnVerif.Model.Keccak
 import AnnVerif.Model.StateJournal
 open AnnVerif AnnVerif.Drv
@@ -37,9 +38,16 @@ def step (d : D) (line : String) : D × String :=
   | ["reopen"] => (d, Hex.encode (Trie.rootHash Keccak.keccak256 d.t))
   | ["prove", k] =>
     match Hex.decode k with
-    | some k => (d, match d.t with
-        | .empty => "proof=bad"      -- VerifyProof has no node to start from in the empty trie
-        | _ => "proof=ok val=" ++ hexOpt (Trie.lookup d.t k))
+    | some k =>
+      -- the model's prover and verifier (Model/TrieProof.lean), with Keccak-256
+      let hk := Trie.keybytesToHex k
+      let proof := Trie.prove Keccak.keccak256 d.t hk
+      let nodes := (proof.map fun e => Hex.encode (Keccak.keccak256 e)).toArray.qsort (· < ·) |>.toList
+      let ns := " nodes=" ++ ",".intercalate nodes
+      (d, match Trie.verify Keccak.keccak256 proof (hk.length + 1) (Trie.rootHash Keccak.keccak256 d.t) hk with
+        | none => "proof=bad" ++ ns    -- also the empty trie: VerifyProof has no node to start from
+        | some none => "proof=ok val=-" ++ ns
+        | some (some v) => "proof=ok val=" ++ Hex.encode v ++ ns)
     | none => (d, "bad-op")
   -- the journalled state database
   | ["sdb", "new"] => ({ d with db := {}, persisted := fun _ => none, dead := false }, "ok")
